@@ -29,7 +29,13 @@ META = dict(
                "(@dataclass, __eq__ without __hash__, hash raising), compare by value / always / never / raise on ==, are falsy, "
                "have raising __str__ / __repr__, an own __init__ signature, unpicklable / un-JSON-able / huge args, exception "
                "groups, __cause__ / __context__ chains (cyclic ones, ones holding such objects), one object raised by several "
-               "messages - half of these cases with logging configured; the model sees the class identifier only.",
+               "messages - half of these cases with logging configured; the model sees the class identifier only. In a quarter of "
+               "the cases the valid messages are not written the way the harness always wrote them (every label typed by "
+               "prepare_label): they are sent through the real kicker with a pre_send middleware that stamps / removes labels "
+               "after labels_types was computed, or built by hand like another client would (raw JSON, own type table): "
+               "labels_types covers all / some / none of the labels, is {} / null / absent, names absent labels; the timeout "
+               "label is typed or arrives as the plain JSON value; label values are also bool / None / lists / falsy - the task "
+               "must run with every label of the message, the un-typed timeout is enforced, the result carries all labels.",
     level_note="Known finding sync_generator_exit (D10): a SYNC function raising GeneratorExit - the theorems exclude exactly "
                "that region (wf_recv: sync_genexit c = false) and C07_one_save_refuted_sync_genexit exhibits it. The statement "
                "claims timeout enforcement for async functions only; for sync functions wait_for gives up but the thread "
